@@ -42,6 +42,8 @@ def generate(rng, tier):
             case["end"] = min(starts) - rng.choice([0, 1, 1000])  # end at / before the start: exactly one update
         if i % 6 == 5:
             case = sc.with_lazy_time(case)     # starting times known only from the connect phase on
+        elif i % 2 == 0:
+            case["autostart"] = True           # no explicit start time: the composition takes the earliest component's
         cases.append(case)
     # finam's OWN components (generators, callback component, time trigger, debug consumer) with timedelta and CALENDAR
     # steps: run by the real driver, judged by the property monitor only (no Coq model of these classes)
